@@ -3,13 +3,13 @@ proof: Props/C17.v; tie + search for a failing input: checks/searchcore.py (engi
 and, at the level of the UCI commands (go, perft, eval, d, isready, ...), sessions through the REAL main loop: the position displayed before and after the
 command must be the same (all six FEN fields and the key), and a later search must print what it prints when the command is left out."""
 import re, json
-from checks import searchcore
+from checks import searchcore, c13
 import vlib
 
 POS = ['position startpos', 'position startpos moves e2e4 e7e5 g1f3', 'position fen r3k2r/p1ppqpb1/bn2pnp1/3PN3/1p2P3/2N2Q1p/PPPBBPPP/R3K2R w KQkq - 0 1',
        'position fen 8/2p5/3p4/KP5r/1R3p1k/8/4P1P1/8 w - - 0 10', 'position startpos moves g1f3 g8f6 f3g1 f6g8 g1f3 g8f6',
        'position fen rnbqkbnr/ppp1pppp/8/8/3pP3/8/PPPP1PPP/RNBQKBNR b KQkq e3 0 3']
-INSPECT = ['perft 1', 'perft 2', 'perft 3', 'eval', 'd', 'isready', 'uci', 'stop', 'foo bar']
+INSPECT = ['perft 1', 'perft 2', 'perft 3', 'perft! 2', 'perft simple', 'perft', 'eval', 'd', 'isready', 'uci', 'stop', 'foo bar']
 LATE = 20000
 
 def displays(out):
@@ -34,7 +34,7 @@ def last_search(out):
     return res
 
 def uci_level(ctx):
-    ran = 0; seen = set()
+    ran = 0; seen = set(); tied = []
     for pos in POS:
         ref = ctx.engine_session([(0, pos), (0, 'd'), (0, 'd'), (0, 'go depth 3'), (LATE, 'quit')], extra=7, timeout=120)
         refs = last_search(ref)
@@ -45,6 +45,7 @@ def uci_level(ctx):
             scripts.append((cmd, [(0, pos), (0, 'd'), (0, cmd)] + extra_lines + [(LATE, 'd'), (0, 'quit')], False))
         for cmd, script, later in scripts:
             out = ctx.engine_session(script, extra=7, timeout=120); ran += 1
+            if cmd.startswith('perft'): tied.append((script, out))
             ds = displays(out)
             prob = None
             if len(ds) < 2 or '@TIMEOUT' in out: prob = ('C17:uci-session-broke', 'the session did not display the position twice (panic, hang or missing output)')
@@ -54,6 +55,33 @@ def uci_level(ctx):
                 seen.add(prob[0])
                 ctx.violation(prob[0], prob[1], {'script (delay_in_polls line)': [f'{d} {l}' for d, l in script], 'display_before': ds[0] if ds else None, 'display_after': ds[-1] if ds else None,
                                                  'search_after': last_search(out), 'search_without_the_command': refs if later else None, 'transcript_tail': out[-1500:]})
+    # `move`: the one console command that is meant to change the game -- it must do what `position ... moves` does with the same moves
+    MV = [('position startpos', 'e2e4 e7e5 g1f3'), ('position startpos moves d2d4', 'd7d5 c1f4'), ('position fen r3k2r/p1ppqpb1/bn2pnp1/3PN3/1p2P3/2N2Q1p/PPPBBPPP/R3K2R w KQkq - 0 1', 'e1g1 e8c8'),
+          ('position fen 8/2p5/3p4/KP5r/1R3p1k/8/4P1P1/8 w - - 0 10', 'e2e4 h4g5'), ('position startpos moves g1f3 g8f6', 'f3g1 f6g8')]
+    for pos, mv in MV:
+        a = [(0, pos), (0, 'move ' + mv), (0, 'd'), (0, 'go depth 3'), (LATE, 'quit')]
+        b = [(0, pos + (' ' if ' moves ' in pos else ' moves ') + mv), (0, 'd'), (0, 'go depth 3'), (LATE, 'quit')]
+        oa = ctx.engine_session(a, extra=7, timeout=120); ob = ctx.engine_session(b, extra=7, timeout=120); ran += 2
+        tied.append((a, oa))
+        da, db = displays(oa), displays(ob)
+        if (not da or not db or da[-1] != db[-1] or last_search(oa) != last_search(ob)) and 'C17:move-command' not in seen:
+            seen.add('C17:move-command')
+            ctx.violation('C17:move-command', '`move` does not leave the position and history that `position ... moves` leaves with the same moves',
+                          {'script (delay_in_polls line)': [f'{d} {l}' for d, l in a], 'display_after_move': da[-1] if da else None, 'display_after_position_moves': db[-1] if db else None,
+                           'search_after_move': last_search(oa), 'search_after_position_moves': last_search(ob)})
+    # tie: the same sessions through the extracted main-loop model (perft and move are modelled commands)
+    if ctx.model_ok and tied:
+        mod = ctx.model_batch(['session 7 ## ' + ' ## '.join(f'{d}|{l}' for d, l in s) for s, o in tied])
+        dis = []
+        for (s, o), m in zip(tied, mod):
+            el, ml = c13.transcripts(o, m)
+            if el != ml: dis.append((s, el, ml))
+        ctx.cov['uci_level_sessions_compared_with_the_model'] = len(tied); ctx.cov['uci_level_model_vs_engine_disagreements'] = len(dis)
+        if dis and not ctx.violations:
+            s, el, ml = dis[0]
+            idx = next((i for i, (x, y) in enumerate(zip(el, ml)) if x != y), min(len(el), len(ml)))
+            ctx.broken.append(vlib.Broken('correspondence UCI sessions (perft / move through the real main loop): engine and model transcripts differ',
+                json.dumps({'script': [f'{d} {l}' for d, l in s], 'first_difference_at_line': idx, 'engine': el[max(0, idx - 1):idx + 2], 'model': ml[max(0, idx - 1):idx + 2], 'sessions_differing': len(dis)})))
     ctx.cov['uci_level_sessions_through_the_real_main_loop'] = ran
     ctx.cov['evaluations'] = ctx.cov.get('evaluations', 0) + ran
 
